@@ -36,12 +36,17 @@ THEOREMS = [
     'AbacusVerif.TwoPass.fill_interleave',
     'AbacusVerif.TwoPass.count_interleave',
     'AbacusVerif.TwoPass.fastConcat_interleave',
+    'AbacusVerif.HodLink.records_rowsOf',
+    'AbacusVerif.HodLink.fastConcat_any',
+    'AbacusVerif.HodLink.catalogue_is_c09_filter',
+    'AbacusVerif.HodLink.catalogue_real_is_c09',
+    'AbacusVerif.HodLink.catalogue_thread_independent_c09',
     'AbacusVerif.TwoPass.rint_linspace_blocks',
     'AbacusVerif.TwoPass.fastConcat_concrete',
     'AbacusVerif.TwoPass.twoPass_concrete',
 ]
 DRIVER = 'drv_c10'
-LEAN_MODULES = ['AbacusVerif.Props.C10', 'AbacusVerif.Props.C10Conc']
+LEAN_MODULES = ['AbacusVerif.Props.C10', 'AbacusVerif.Props.C10Conc', 'AbacusVerif.Props.C10LinkC09']
 NMAX = 16
 RULE = ('one evaluation = one real run at one thread count: gen_gal_cat(tables, tracers, Nthread=n) for n = 1..16 on '
         'synthetic halo/particle tables (sizes 0..40 / 0..200 incl. every size not divisible by n and fewer rows than '
@@ -57,7 +62,8 @@ TRUSTED = ['OMP_WAIT_POLICY=passive and NUMBA_NUM_THREADS>=16 are set by the har
            'the block boundaries computed inside the kernels are not observable; the theorems hold for every monotone '
            'block sequence and the harness checks that rint(linspace) (numpy and numba, fastmath, parallel) is one']
 ASSUMPTIONS = ['array sizes < 2^40 so that floor(T*N1/(N1+N2)) in float64 equals the exact floor',
-               'keep codes are inputs of the model (their computation from the HOD parameters is C09)',
+               'in the harness runs keep codes are read from the real run; in the theorems they are C09\'s keepCode '
+               '(Props/C10LinkC09.lean: catalogue_is_c09_filter); the widths remain inputs of C09',
                'np.searchsorted is a binary search on a sorted table']
 
 _state = {}
